@@ -263,7 +263,7 @@ PROPS['C09'] = dict(
 
 # ---------------------------------------------------------------- expression programs (C05, C06, C07)
 import subprocess as _subprocess, sys as _sys
-CAT_N = 8
+CAT_N = 9
 def cat_units(prefix, pid, qscale, tscale):
     us = []
     for k in range(CAT_N):
@@ -322,7 +322,7 @@ def gen_unit(prefix, pid, n_units=16, per=6, scale=2.0):
 import re as _re
 
 EXPR_RULE = ('expression programs: operator expression TYPES are sampled by generating C++ source from the grammar E ::= I | X<n> | Dx<n> | SplineOperator{f_k} | E*E | E+E | E-E | c*E | E*c | E/c | E+c | c+E | E-c | c-E | -E with c a T-valued or an int literal '
-             '(depth <= 5, output order <= 6, rvalue-built trees only - the form the library compiles and every caller uses). Quick: the committed catalogue of 48 programs (16 fixed members: scalar product pair, commutator, both associativity forms, the four example Hamiltonians, int division, every scalar production; 32 generated covering every production with both scalar types); '
+             '(depth <= 5, output order <= 6, rvalue-built trees only - the form the library compiles and every caller uses). Quick: the committed catalogue of 54 programs (16 fixed members + 6 high-parameter members X<4..7>, Dx<5>: scalar product pair, commutator, both associativity forms, the four example Hamiltonians, int division, every scalar production; 32 generated covering every production with both scalar types); '
              'thorough adds 96 fresh expression types from VERIF_SEED. Per expression: random grids (2..9 points, incl. far from origin / non-uniform), operand orders 0..3, factor splines of orders 0,1,2 placed relative to the operand by constructed class '
              '(covers, strictly inside, ENDS inside, starts inside, touching, gap, interval-free). Library instantiated with the exact scalar Q. ')
 PROPS['C05'] = dict(
@@ -468,7 +468,7 @@ PROPS['C18'] = dict(
     confirm_any=True,  # schedules are not reproducible: a replay runs the workload 20 times, one failing replay confirms
     units=[dict(target=T('h_threads', kind='tsan'), quick=dict(args=['--repeats', '3'], scale=0.6, shards=6, timeout=600), thorough=dict(args=['--repeats', '5'], scale=3.0, shards=16, timeout=3600))],
     rule=('generated multi-thread workloads: a shared CONST pool (one grid, 3..6 windows each materialised as splines of orders 0..3, their supports, a BSplineGenerator, two compound operator expressions, a SplineOperator, LinearForm, BilinearForm, ScalarProduct objects) + per-thread op lists (4..24 ops from 16 kinds: evaluate, copy+destroy, copy-assign, a+b, a-b, a*b, '
-          'apply shared operator, apply shared spline operator, linear form, bilinear form (incl. copying a shared SplineOperator), generateBSplines on the shared generator, predicates, linearCombination over the shared vector, support union/intersection/copy, numerical integration, grid copy, mixing shared splines (as LEFT operand) with splines on a logically equal grid held in a distinct object, mixing them with splines of a generator each thread builds itself from the same points, operator / quadrature template instances the tests never use: X<4..6>, Dx<3>, Dx<5>, integrate<2>, integrate<5>) for 2/3/4/8/16 threads with generated yield/spin patterns; all threads start behind one barrier; every workload is executed 3 (quick) or 5 (thorough) times, threads FIRST and the sequential reference afterwards (a sequential warm-up would hide lazily initialised state); every process (6 in quick, 16 in thorough) begins with a cold-start workload in which four threads run every op kind at once. '
+          'apply shared operator, apply shared spline operator, linear form, bilinear form (incl. copying a shared SplineOperator), generateBSplines on the shared generator, predicates, linearCombination over the shared vector, support union/intersection/copy, numerical integration, grid copy, a 1500-point evaluation sweep of ONE shared spline from thread-specific starts (values compared bitwise, which also catches state kept in relaxed atomics that the race detector cannot see), mixing shared splines (as LEFT operand) with splines on a logically equal grid held in a distinct object, mixing them with splines of a generator each thread builds itself from the same points, operator / quadrature template instances the tests never use: X<4..6>, Dx<3>, Dx<5>, integrate<2>, integrate<5>) for 2/3/4/8/16 threads with generated yield/spin patterns; all threads start behind one barrier; every workload is executed 3 (quick) or 5 (thorough) times, threads FIRST and the sequential reference afterwards (a sequential warm-up would hide lazily initialised state); every process (6 in quick, 16 in thorough) begins with a cold-start workload in which four threads run every op kind at once. '
           'Oracle: ThreadSanitizer with halt_on_error (any report is a violation) and bitwise equality of every thread\'s result vector with a sequential run of the same op list. Non-trivial: >= 2 threads and >= 4 ops. Distinct = distinct workload text.'),
     technique='rapidcheck-generated multi-thread workloads executed under ThreadSanitizer (happens-before race detection) with a sequential-run differential',
     engine='rapidcheck + ThreadSanitizer',
@@ -490,7 +490,7 @@ PROPS['C20'] = dict(
     units=[dict(target=_examples_target(), quick=dict(scale=1.0, timeout=3000), thorough=dict(scale=6.0, shards=8, timeout=14000))],
     rule=('the example sources are compiled FROM /repo/examples with -D_GLIBCXX_DEBUG + ASan + UBSan + BSPLINE_ADD_TEST_CHECKS behind a C-ABI shim. Diffusion: grids of 2..12 points (uniform, random, strongly non-uniform), whole-grid coefficient splines with positive piecewise-constant values in [1/8, 8] '
           '(15% constant), boundary values in [-10,10], scale factors 2^k, arbitrary positive rationals and (25%) extreme factors 2^-160..2^160; strict sub-window coefficient splines are generated too and must be rejected cleanly with the library exception. Oracle: no sanitizer / checked-STL report; u(front)=start, u(back)=end within 1e-9*max(1,|start|,|end|); '
-          'u unchanged (1e-7 relative) when D is scaled; straight line for constant D (1e-7). Spline potential: grids of 21..41 jittered points (the entry point returns ten states), potentials a x^2 + b sin(w x) + d, constants c in [-1000,1000] added before interpolation or as a constant spline; '
+          'u unchanged (1e-7 relative) when D is scaled; straight line for constant D (1e-7). Spline potential: grids of 21..41 jittered points (the entry point returns ten states), potentials a x^2 + b sin(w x) + d, constants c in [-1000,1000] added before interpolation or as a constant spline; 45% of the potentials are restricted to a strict sub-window of the grid (zero outside: step, well, barrier - the entry point takes any PSpline); '
           'all ten eigenvalues shift by c within 1e-7*(1+|c|+|lambda|). Harmonic oscillator and hydrogen: once per run, n+1/2 (1e-12) and -1/n^2 (5e-12), the suite\'s own tolerances. Observed maxima in metrics_max. Non-trivial: >= 3 nodes or start != end (diffusion, and every clean rejection); c != 0 (potential).'),
     technique='rapidcheck generation of example inputs; oracle = metamorphic relations of the solvers + sanitizer / checked-STL reports on the example sources themselves',
     level_text='Generated-input search over the four example entry points with the example code itself instrumented; tolerances are calibrated multiples of the observed worst case (>= 10^3 head-room), not derived. Sampling, not proof.',
